@@ -12,21 +12,32 @@ struct Snapshot { long long written ; std::vector<uint8_t> bytes ; } ;
 static const long long SEEK_MARK = 1ll << 40 ;	// part entry SEEK_MARK + k: sf_seek (k, SEEK_SET) on the write handle (k clipped to the extent)
 
 inline std::string write_partitioned (MemFile &m, const OpenSpec &s, int t, const uint8_t *src, long long N,
-			const std::vector<long long> &part, bool autohdr, std::vector<Snapshot> *snaps, int *updates_done = nullptr)
-{	SNDFILE *f = open_write_mem (m, s) ;
+			const std::vector<long long> &part, bool autohdr, std::vector<Snapshot> *snaps, int *updates_done = nullptr, bool rdwr = false, int *rdwr_reads = nullptr)
+{	SNDFILE *f = nullptr ;
+	if (rdwr)
+	{	// read/write handle on a new file: a read or a read-pointer seek is slipped in between the last write and each explicit update
+		SF_INFO wi ; memset (&wi, 0, sizeof (wi)) ; wi.format = s.format ; wi.channels = s.ch ; wi.samplerate = s.rate ; f = open_mem (m, SFM_RDWR, &wi) ;
+		if (!f) { rdwr = false ; m = MemFile () ; }
+	}
+	if (!f) f = open_write_mem (m, s) ;
 	if (!f) return std::string ("open_write_failed: ") + sf_strerror (nullptr) ;
 	if (autohdr) sf_command (f, SFC_SET_UPDATE_HEADER_AUTO, nullptr, SF_TRUE) ;
 	int ts = stype_size (t) ; long long done = 0, extent = 0 ;
 	for (long long p : part)
 	{	if (p == 0)
-		{	sf_command (f, SFC_UPDATE_HEADER_NOW, nullptr, 0) ;
+		{	if (rdwr && extent > 0)
+			{	Block one ((size_t) s.ch * 8) ; if (sf_seek (f, (extent - 1) / 2, SEEK_SET | SFM_READ) < 0) { sf_close (f) ; return "rdwr_read_seek_failed: " + sf_err_text (f) ; }
+				if ((extent & 1) && sf_readf_t (f, T_DOUBLE, one.p, 1) != 1) { sf_close (f) ; return "rdwr_read_failed" ; }
+				if (rdwr_reads) (*rdwr_reads) ++ ;
+			}
+			sf_command (f, SFC_UPDATE_HEADER_NOW, nullptr, 0) ;
 			if (updates_done) (*updates_done) ++ ;
 			if (snaps) snaps->push_back ({ extent, m.data }) ;
 			continue ;
 		}
 		if (p >= SEEK_MARK)
 		{	long long k = p - SEEK_MARK ; if (k > extent) k = extent ;
-			sf_count_t got = sf_seek (f, k, SEEK_SET) ;
+			sf_count_t got = sf_seek (f, k, rdwr ? (SEEK_SET | SFM_WRITE) : SEEK_SET) ;
 			if (got != k) { std::string d = "write_seek_failed: to " + std::to_string (k) + " returned " + std::to_string ((long long) got) + " " + sf_err_text (f) ; sf_close (f) ; return d ; }
 			done = k ;
 			continue ;
@@ -42,7 +53,7 @@ inline std::string write_partitioned (MemFile &m, const OpenSpec &s, int t, cons
 		if (autohdr && snaps) snaps->push_back ({ extent, m.data }) ;
 	}
 	if (extent < N)
-	{	if (done != extent && sf_seek (f, extent, SEEK_SET) != extent) { sf_close (f) ; return "write_seek_failed: to extent" ; }
+	{	if (done != extent && sf_seek (f, extent, rdwr ? (SEEK_SET | SFM_WRITE) : SEEK_SET) != extent) { sf_close (f) ; return "write_seek_failed: to extent" ; }
 		long long fr = N - extent ;
 		Block b ((size_t) fr * s.ch * ts) ; memcpy (b.p, src + (size_t) extent * s.ch * ts, b.n) ;
 		if (sf_writef_t (f, t, b.p, fr) != fr) { sf_close (f) ; return "short_write: tail" ; }
